@@ -205,6 +205,16 @@ def main():
         r = add(nm, flav, args=args, recv=recv, group='method', body='env::body2({id}, self.id as u64, %s)' % ('a' if args and args[0][1] == 'u64' else '0'), **kw)
         meth += ['    ' + l for l in render(r)]
     lines += ['#[derive(Debug, Clone, PartialEq)]', 'pub struct Svc { pub id: u32 }', 'impl cachelito_core::DefaultCacheableKey for Svc {}', 'impl Svc {'] + meth + ['}', '']
+    # ---- dispatch tables for the native replay (subjects whose arguments are all u64)
+    syn = []; asy = []
+    for r in S:
+        if any(t != 'u64' for a, t in r['args']): continue
+        call = ('Svc { id: recv as u32 }.' if r['recv'] else '') + r['name'] + '(' + ', '.join(f'a[{i}]' for i in range(len(r['args']))) + ')'
+        if r['flavour'] == 'A': asy.append(f'        "{r["name"]}" => Some(format!("{{:?}}", {call}.await)),')
+        else: syn.append(f'        "{r["name"]}" => Some(format!("{{:?}}", {call})),')
+    lines += ['pub fn call_sync(name: &str, recv: u64, a: &[u64]) -> Option<String> {', '    match name {'] + syn + ['        _ => None,', '    }', '}', '']
+    lines += ['pub async fn call_async(name: &str, recv: u64, a: Vec<u64>) -> Option<String> {', '    match name {'] + asy + ['        _ => None,', '    }', '}', '']
+    lines += ['pub fn is_async(name: &str) -> bool {', '    matches!(name, ' + ' | '.join(f'"{r["name"]}"' for r in S if r['flavour'] == 'A') + ')', '}', '']
     here = os.path.dirname(os.path.abspath(__file__))
     open(os.path.join(here, 'src', 'gen.rs'), 'w').write('\n'.join(lines))
     json.dump(S, open(os.path.join(here, 'subjects.json'), 'w'), indent=1)
